@@ -26,7 +26,8 @@ LOCSRC   == "local"
      src   announcing neighbour or LOCSRC         v    variant number (tag carried as a community)
      len   number of ASNs in the AS_PATH          lp   LOCAL_PREF as received (-1 absent)
      med   MED as received (-1 absent)            loop the AS_PATH contains the speaker's own AS
-     via   AS of another neighbour contained in the AS_PATH (0 none)                          *)
+     via   AS of another neighbour contained in the AS_PATH (0 none)
+     pp    number of ASNs prepended by policy           cm   community tags added by policy (bit mask)  *)
 
 Kind(p)  == PInfo[p].kind
 IsIBGPKind(k) == k \in {"ibgp", "rrc"}
@@ -42,8 +43,12 @@ pvars == <<up, inr, loc, impPol, expPol, inrPol, expEff>>
 (* the closed policy family of C15 (all conditions are on prefix "x1"):
    acc = accept everything, rejx1 = reject x1, medx1 = set MED 77 on x1, ppx1 = prepend 65099 twice,
    rejA = reject the routes for x1 whose AS_PATH contains AS 65001 (discriminates between the paths
-   of one prefix, which matters for ADD-PATH neighbours) *)
-Pols == {"acc", "rejx1", "medx1", "ppx1", "rejA"}
+   of one prefix, which matters for ADD-PATH neighbours),
+   cm1x1 / cm2x1 = ADD community tag 1 / tag 2 to the routes for x1 (an attribute that GROWS: every
+   evaluation starts from the route as received, so after a change from cm1x1 to cm2x1 and a soft
+   reset the route carries tag 2 only).  cm is the set of tags as a bit mask 0..3. *)
+Pols == {"acc", "rejx1", "medx1", "ppx1", "rejA", "cm1x1", "cm2x1"}
+CmAdd(c, t) == IF t = 1 THEN (IF c \in {1, 3} THEN c ELSE c + 1) ELSE (IF c \in {2, 3} THEN c ELSE c + 2)
 
 PInit == /\ up  = [p \in Peers |-> FALSE]
          /\ inr = [p \in Peers |-> [x \in Prefixes |-> NoRoute]]
@@ -117,6 +122,8 @@ ImpApply(pol, x, r) ==
          [] pol = "medx1" -> [r EXCEPT !.med = 77]
          [] pol = "ppx1"  -> [r EXCEPT !.pp = 2]
          [] pol = "rejA"  -> IF r # NoRoute /\ InPath(65001, r) THEN NoRoute ELSE r
+         [] pol = "cm1x1" -> IF r = NoRoute THEN r ELSE [r EXCEPT !.cm = CmAdd(@, 1)]
+         [] pol = "cm2x1" -> IF r = NoRoute THEN r ELSE [r EXCEPT !.cm = CmAdd(@, 2)]
 
 Imported(p, x) == ImpApply(inrPol[p][x], x, inr[p][x])
 
@@ -153,14 +160,14 @@ MayAdvertise(b, p) ==
 Exp(b, p) ==
   CASE Kind(p) = "ebgp" ->
          [v |-> b.v, src |-> b.src, aspath |-> <<LocalAS>> \o AsPath(b), nh |-> "self",
-          med |-> IF b.src = LOCSRC THEN b.med ELSE -1, lp |-> -1, origid |-> "none", clist |-> 0]
+          med |-> IF b.src = LOCSRC THEN b.med ELSE -1, lp |-> -1, origid |-> "none", clist |-> 0, cm |-> b.cm]
     [] Kind(p) = "ibgp" ->
          [v |-> b.v, src |-> b.src, aspath |-> AsPath(b), nh |-> IF b.src = LOCSRC THEN "self" ELSE b.src,
-          med |-> b.med, lp |-> EffLp(b), origid |-> "none", clist |-> 0]
+          med |-> b.med, lp |-> EffLp(b), origid |-> "none", clist |-> 0, cm |-> b.cm]
     [] Kind(p) = "rrc" ->
          [v |-> b.v, src |-> b.src, aspath |-> AsPath(b), nh |-> IF b.src = LOCSRC THEN "self" ELSE b.src,
           med |-> b.med, lp |-> EffLp(b),
-          origid |-> IF b.src = LOCSRC THEN "self" ELSE b.src, clist |-> 1]
+          origid |-> IF b.src = LOCSRC THEN "self" ELSE b.src, clist |-> 1, cm |-> b.cm]
 
 (* export policy applied to the exported form *)
 ExpApply(pol, x, e) ==
@@ -169,13 +176,15 @@ ExpApply(pol, x, e) ==
          [] pol = "medx1" -> [e EXCEPT !.med = 77]
          [] pol = "ppx1"  -> [e EXCEPT !.aspath = Prep(2) \o @]
          [] pol = "rejA"  -> IF \E i \in 1..Len(e.aspath) : e.aspath[i] = 65001 THEN NoRoute ELSE e
+         [] pol = "cm1x1" -> [e EXCEPT !.cm = CmAdd(@, 1)]
+         [] pol = "cm2x1" -> [e EXCEPT !.cm = CmAdd(@, 2)]
 
 (* route-server clients (RFC 7947): each client is sent the best of the routes of the OTHER
    clients whose AS_PATH does not contain its own AS, unchanged (no prepend, next hop, MED and
    LOCAL_PREF as received).  Locally injected routes are not distributed to route-server clients. *)
 RsCandidates(p, x) == {r \in LocRibExpected(x) : r.src # LOCSRC /\ r.src # p /\ ~InPath(PInfo[p].as, r)}
 RsExp(b) == [v |-> b.v, src |-> b.src, aspath |-> AsPath(b), nh |-> b.src, med |-> b.med, lp |-> b.lp,
-             origid |-> "none", clist |-> 0]
+             origid |-> "none", clist |-> 0, cm |-> b.cm]
 RsBetter(a, b) == AsLen(a) < AsLen(b)       \* LOCAL_PREF is kept as received but every RS route here has none
 RsExportOf(p, x) == LET S == RsCandidates(p, x) IN
                       IF S = {} THEN NoRoute
